@@ -9,7 +9,7 @@ from __future__ import annotations
 import ast
 
 from ..core import Rule, AnalysisError, C_LIB
-from .. import cfront, clib, cfg as _cfg, pyfront
+from .. import cfront, clib, cfg as _cfg, pyfront, pyutil
 
 LIB = C_LIB
 OBJ = clib.OBJ
@@ -443,15 +443,18 @@ def r5_cadence_rule(repo=None):
             r.violation(LIB, fn.name, n.label[:80], "cadence test does not reject or can be bypassed", line=n.line)
     m = pyfront.mod("digital_rf_hdf5", repo)
     q = "DigitalRFWriter.__init__"
-    pf = m.fn(q)
-    pg = m.cfg(q)
+    fv = m.flat(q)
+    pf = fv.fn()
+    pg = fv.cfg()
+    env = pyutil.single_alias_env(pf)
     want = {"subdir": None, "file": None, "mod": None}
     for n in pg.nodes:
-        if n.kind != "cond" or n.ast is None:
+        if n.kind != "cond" or n.ast is None or isinstance(n.ast, (ast.For, ast.While)):
             continue
-        src = ast.unparse(n.ast)
-        names = pyfront.names_in(n.ast) | {a.attr for a in ast.walk(n.ast) if isinstance(a, ast.Attribute)}
-        if any(isinstance(x, ast.Mod) for x in ast.walk(n.ast)) and {"subdir_cadence_secs", "file_cadence_millisecs"} <= names:
+        e_ = pyutil.dealias(n.ast, env)
+        src = ast.unparse(e_)
+        names = pyfront.names_in(e_) | {a.attr for a in ast.walk(e_) if isinstance(a, ast.Attribute)}
+        if any(isinstance(x, ast.Mod) for x in ast.walk(e_)) and {"subdir_cadence_secs", "file_cadence_millisecs"} <= names:
             want["mod"] = n
         elif "subdir_cadence_secs" in names and "file_cadence_millisecs" not in names and "< 1" in src:
             want["subdir"] = n
